@@ -340,6 +340,8 @@ SELFTEST = [
          old="\tfor (cur = list; cur != NULL; cur = cur->next)\n\t\tfunc (cur->data, user_data);", new="\tfor (cur = list->next; cur != NULL; cur = cur->next)\n\t\tfunc (cur->data, user_data);"),
     dict(id="list-foreach-stops-before-last", file="src/plist.c", expect="C15.5",
          old="\tfor (cur = list; cur != NULL; cur = cur->next)\n\t\tfunc (cur->data, user_data);", new="\tfor (cur = list; cur->next != NULL; cur = cur->next)\n\t\tfunc (cur->data, user_data);"),
+    dict(id="list-foreach-null-callback-called", file="src/plist.c", expect="C15.5",
+         old="\tif (P_UNLIKELY (list == NULL || func == NULL))", new="\tif (P_UNLIKELY (list == NULL && func == NULL))"),
     dict(id="list-last-returns-head", file="src/plist.c", expect="C15.5",
          old="\tfor (cur = list; cur->next != NULL; cur = cur->next)\n\t\t;\n\n\treturn cur;", new="\tfor (cur = list; cur->next != NULL; cur = cur->next)\n\t\t;\n\n\treturn list;"),
     dict(id="list-length-starts-at-zero", file="src/plist.c", expect="C15.5",
